@@ -199,6 +199,19 @@ func TestEnumerated(t *testing.T) {
 			}
 		}
 	}
+	// runs of unanswered transmissions around the width of the BMC's sequence
+	// window (16), in one command and spread over several
+	for _, l := range []int{15, 16, 17, 31, 32, 33, 48} {
+		for _, o := range []hx.Outcome{hx.Garbage, hx.BadSig} {
+			one := make([]hx.Outcome, l, l+1)
+			for i := range one {
+				one[i] = o
+			}
+			run([][]hx.Outcome{append(one, hx.Final), {hx.Final}})
+			third := one[:l/3+1]
+			run([][]hx.Outcome{third, third, third, {hx.Busy, hx.Final}})
+		}
+	}
 	ev.Label("enumeration-complete")
 }
 
@@ -217,7 +230,7 @@ func TestStateMachine(t *testing.T) {
 			}
 			return sc
 		}
-		steps, strays, numbered := 0, 0, false
+		steps, strays, numbered, longRuns := 0, 0, false, 0
 		t.Repeat(map[string]func(*rapid.T){
 			"sessionCommand": func(t *rapid.T) {
 				if steps >= 60 {
@@ -227,6 +240,31 @@ func TestStateMachine(t *testing.T) {
 				call := rapid.SampledFrom(cat).Draw(t, "command").Prepare(t, h.w.BMC)
 				h.sc.Install(h.w.BMC)
 				h.command(true, call.Cmd, genScript())
+			},
+			"longUnansweredRun": func(t *rapid.T) {
+				// 16 or more transmissions in a row without a valid matching reply (the
+				// BMC's sequence window is 16 wide): numbering must simply go on
+				if steps >= 60 || longRuns >= 2 {
+					t.Skip("history long enough")
+				}
+				steps++
+				n := rapid.IntRange(14, 40).Draw(t, "unanswered")
+				sc := make([]hx.Outcome, n, n+1)
+				for i := range sc {
+					sc[i] = rapid.SampledFrom([]hx.Outcome{hx.Garbage, hx.BadSig, hx.StrayOK, hx.Garbage}).Draw(t, "outcome")
+				}
+				if rapid.Bool().Draw(t, "answeredInTheEnd") {
+					sc = append(sc, hx.Final)
+				}
+				h.sc.Install(h.w.BMC)
+				s := h.sess
+				if h.sess2 != nil && rapid.Bool().Draw(t, "second") {
+					s = h.sess2
+				}
+				h.commandOn(s, pickCmd(rapid.IntRange(0, 3).Draw(t, "cmd")), sc)
+				if n >= 16 {
+					longRuns++
+				}
 			},
 			"openSecondSession": func(t *rapid.T) {
 				if h.sess2 != nil {
@@ -284,6 +322,9 @@ func TestStateMachine(t *testing.T) {
 		if strays > 0 {
 			ev.Label("stray-in-session-reply-during-sessionless-command")
 		}
+		if longRuns > 0 {
+			ev.Label("unanswered-run>=16")
+		}
 		if numbered {
 			ev.Label("bmc-numbers-sessionless-packets")
 		}
@@ -298,7 +339,7 @@ func TestStateMachine(t *testing.T) {
 }
 
 func TestCoverage(t *testing.T) {
-	ev.RequireLabels(t, 1, "enumeration-complete", "session-with-integrity-none", "history-with-retransmission", "two-sessions-interleaved", "stray-in-session-reply-during-sessionless-command", "bmc-numbers-sessionless-packets")
+	ev.RequireLabels(t, 1, "enumeration-complete", "unanswered-run>=16", "session-with-integrity-none", "history-with-retransmission", "two-sessions-interleaved", "stray-in-session-reply-during-sessionless-command", "bmc-numbers-sessionless-packets")
 }
 
 func min(a, b int) int {
